@@ -26,6 +26,7 @@ CHECKS = {
     'C04': ('exploration', 'dict model of store-time deep copies vs what every reader placement sees (writer handle, new handle, forked process, second interpreter with another hash seed and bytecode caching on, a handle that interpreter kept open) for writers in this process, in forked children that exit, or in a separate interpreter; 10 persistent configurations; rebuild paths (copy from state, dill round trip, cached re-open + load, pickled cache wrapper) and re-decoration sessions served from the archive', 'worker interpreters run with python default bytecode caching; values restricted to each codec domain; sqlite handles do not pickle', 'property-based testing (Hypothesis, stratified over persistent configuration + a session stratum): generated write histories x writer/reader process placements executed with real forked processes and worker interpreters; model-based round-trip oracle (type-exact)'),
     'C17': ('exploration', 'repr(key) of three spellings of one call computed in three interpreters with hash seeds 0 / 1 / 4242 must be byte-identical for every session-stable keymap (raw, string, pickle, every advertised hashlib algorithm; flat, typed, sentinel variants) via f.key and klepto.keygen; writer/reader session pairs on 7 persistent archives: the later session (other seed, other spellings) answers every call without evaluating', 'inputs whose own repr/pickle differs between interpreters are discarded and counted; sets/frozensets not generated', 'property-based testing (Hypothesis): generated signatures x bindings x spellings x keymaps evaluated in three real worker interpreters with different PYTHONHASHSEED; differential oracle between interpreters + session round-trip oracle'),
     'C13': ('fault_enumeration', 'for each generated (prior state, operation) on 10 persistent archive configurations, EVERY crash point of the real I/O sequence is enumerated: the operation runs in a forked child under a libc interposition shim, is killed before its k-th mutating call for all k (plus partial writes), and a new process must open and read the archive and see each touched key old-or-new, untouched keys unchanged and no phantom key', 'process kill, not power loss; crash points are libc calls under the archive root; one operation per experiment; enumeration over k complete per (state, operation), the (state, operation) pairs themselves are sampled', 'fault injection driven by property-based generation (Hypothesis, stratified over configuration): generated prior histories and operations x exhaustive enumeration of kill points at libc-call granularity via an LD_PRELOAD shim; old-or-new oracle evaluated in a fresh process'),
+    'C14': ('exploration', 'two or three real processes (own handles, own sqlite connections) run one archive operation each under a libc interposition shim in step mode: the harness grants one file-system call at a time, so every explored interleaving is deterministic and replayable; per case all atomic placements of each process at each event boundary of the other are enumerated, plus generated fine-grained interleavings; reader observations are judged by validity predicates (keys ever stored, values stored for that key, present-throughout keys found, complete earlier/later dictionary for the single-file archive) and the final contents by a fresh process', 'schedules between libc calls, sequentially consistent file semantics; fair finite schedules; same-key writers, deleters and two writers on a single-file archive are outside the statement', 'property-based testing over schedules (Hypothesis, stratified over configuration): generated operation sets and interleavings executed with real forked processes whose schedule the harness owns (LD_PRELOAD step mode); validity-predicate oracle per observation + final-state oracle'),
     'C05': ('exploration',
             'generated histories over all 12 decorator classes x maxsize spellings (positional/keyword, 0, None, 1..6) x purge x 18 backends; per-call size predicate taken from the property statement; finds violations, cannot prove absence',
             'sizes observed via len(f.__cache__()) and f.info().size; bounded history length (<=60 ops) and pool size (<=8 keys)',
